@@ -96,4 +96,63 @@ def ResK.info (r : ResK) : SInfo :=
     | _, .bounded n => .atMost n
     | _, .dyn => .any⟩
 
+/-! ### the OLDER resolver `resolve_optype<array::eval_t, view_t, none_t>` (array/eval.hpp:888-948, resolve_unary_array_type
+    :422-590, resolve_binary_array_type :604-688) — the DEFAULT `resolver_t` of `array::eval(view)`.
+
+  It classifies types as fixed-size / hybrid / dynamic ndarray through `fixed_ndarray_shape` and `hybrid_ndarray_max_size`.
+  Neither is specialised for `decorator_t` views (only for `view::where`), so EVERY other view is "dynamic"; an
+  `array::ndarray_t` operand is "fixed-size" exactly when its shape type is a tuple of constants and "dynamic" otherwise.
+  For a dynamic view over dynamic operand(s) the result type is the OPERAND's type with the element type replaced
+  (`replace_element_type_t<array_t, element_t>`): the operand's shape container and data buffer are reused, whatever the
+  view does to rank and size.  `is_fixed_dim_ndarray_v` of operand and view only decide between that and `vector/vector`. -/
+
+/-- what the older resolver sees of an operand: the kind of its shape container and of its data buffer -/
+structure OperK where
+  shape : ShapeK
+  buf : BufK
+  deriving DecidableEq, Repr
+
+/-- `replace_element_type_t<ndarray_t<buffer, shape>, T>`: not defined for a `static_vector` buffer (does not compile) -/
+def OperK.reuse (a : OperK) : Option ResK :=
+  match a.buf with
+  | .bounded _ => none
+  | b => some ⟨a.shape, b⟩
+
+def dynRes : ResK := ⟨.dyn, .dyn⟩
+
+/-- one array operand (`resolve_unary_array_type`), `v` = knowledge of the view type (not `view::where`, not a number) -/
+def resolveEvalOld1 (a : OperK) (v : SInfo) : Option ResK :=
+  if a.shape.isConst then some dynRes                 -- fixed-size operand under a dynamic view (:571-576)
+  else match a.shape.len?, v.fixedDim with
+    | none, none => a.reuse                            -- :524-538
+    | some n, some m => if n = m then a.reuse else some dynRes   -- :539-554
+    | _, _ => some dynRes                              -- :555-562
+
+/-- two array operands (`resolve_binary_array_type`): the left operand's type when it is dynamic, else the right one's -/
+def resolveEvalOld2 (a b : OperK) (_v : SInfo) : Option ResK :=
+  if !a.shape.isConst then a.reuse
+  else if !b.shape.isConst then b.reuse
+  else some dynRes
+
+/-- sufficient static condition for the reused operand container to hold every instance of the view type -/
+def ShapeK.covers : ShapeK → ShapeK → Bool
+  | .dyn, _ => true
+  | .boundedDim b, v => (match v with
+      | .boundedDim m => m ≤ b
+      | w => match w.len? with | some m => m ≤ b | none => false)
+  | .fixedDim n, v => v.len? == some n
+  | .clipped mx, .clipped m => decide (LeAll m mx)
+  | .clipped mx, .const l => decide (LeAll l mx)
+  | .const l, .const l' => l == l'
+  | _, _ => false
+
+def BufK.covers : BufK → SizeK → Bool
+  | .dyn, _ => true
+  | .fixed n, .known m => n == m
+  | .fixed n, .knownB m _ => n == m
+  | .bounded n, z => (match z.bound? with | some m => m ≤ n | none => false)
+  | _, _ => false
+
+def ResK.covers (r : ResK) (v : SInfo) : Bool := r.shape.covers v.shape && r.buf.covers v.size
+
 end NmVerif.Static
